@@ -37,8 +37,8 @@ def lit(n):
     return n
 
 class Fn:
-    def __init__(s, decl, short, callees=None):
-        s.callees = callees or {}
+    def __init__(s, decl, short, callees=None, inlines=None):
+        s.callees = callees or {}; s.inlines = inlines or {}; s.inl_n = 0; s.inl_ret = []
         s.d = decl; s.short = short; s.lines = []; s.consts = []; s.ins = []; s.outs = {}; s.params = {}
         s.arr_in = {}; s.locals = set(); s.constnames = {}
     def var(s, name): return s.constnames.get(name, name)
@@ -109,6 +109,10 @@ class Fn:
             if fn == 'secp256k1_u128_hi_u64': return '(%s / 2^64)' % s.var(s.addr(args[0]))
             if fn in s.callees:      # call to another translated function that returns a value: f args
                 return '(%s %s)' % (fn.replace('secp256k1_', ''), ' '.join(s.call_args(fn, args)))
+            if fn in s.inlines:
+                r = s.inline_call(fn, args)
+                if r is None: raise Unsupported('value of a call that returns nothing: ' + fn)
+                return r
             raise Unsupported('call in expression: ' + fn)
         raise Unsupported('expression ' + k)
     def binop(s, op, a, b, w, rhs_node=None):
@@ -154,6 +158,48 @@ class Fn:
                     if key not in s.written: s.mem_in.setdefault(base['referencedDecl']['name'], set()).add((f, i))
                     out.append('%s_%s%s' % (base['referencedDecl']['name'], f, '' if i < 0 else i))
         return out
+    def inline_call(s, fn, args):
+        """a call to a function of the same subset whose body is translated in place: scalar parameters are bound by a
+        let, pointer parameters are identified with the caller's object, locals get a unique prefix; returns the name
+        holding the returned value (or None)"""
+        import copy
+        d = s.inlines[fn]; s.inl_n += 1; pre = '%s%d_' % (fn.replace('secp256k1_', ''), s.inl_n)
+        params = [c for c in d['inner'] if c['kind'] == 'ParmVarDecl']
+        body = copy.deepcopy([c for c in d['inner'] if c['kind'] == 'CompoundStmt'][0])
+        if len(params) != len(args): raise Unsupported('inline call arity: ' + fn)
+        ren = {}
+        for p, a in zip(params, args):
+            if '*' in p['type']['qualType']:
+                b = strip(a)
+                if b['kind'] == 'UnaryOperator' and b['opcode'] == '&': b = strip(b['inner'][0])
+                if b['kind'] != 'DeclRefExpr': raise Unsupported('pointer argument shape in call to ' + fn)
+                ren[p['name']] = b['referencedDecl']['name']
+            else:
+                ren[p['name']] = pre + p['name']; s.let(pre + p['name'], s.ex(a))
+        local = set()
+        def collect(n):
+            if isinstance(n, dict):
+                if n.get('kind') == 'VarDecl': local.add(n['name'])
+                for v in n.values(): collect(v)
+            elif isinstance(n, list):
+                for v in n: collect(v)
+        collect(body)
+        def rename(n):
+            if isinstance(n, dict):
+                if n.get('kind') == 'VarDecl' and n['name'] in local: n['name'] = pre + n['name']
+                rd = n.get('referencedDecl')
+                if rd and rd.get('kind') in ('VarDecl', 'ParmVarDecl'):
+                    if rd['kind'] == 'ParmVarDecl' and rd['name'] in ren: rd['name'] = ren[rd['name']]
+                    elif rd['kind'] == 'VarDecl' and rd['name'] in local: rd['name'] = pre + rd['name']
+                for k, v in n.items():
+                    if k != 'referencedDecl': rename(v)
+            elif isinstance(n, list):
+                for v in n: rename(v)
+        rename(body)
+        saved = s.returned; s.returned = False; s.inl_ret.append([pre + 'ret', False])
+        s.stmt(body)
+        name, used = s.inl_ret.pop(); s.returned = saved
+        return name if used else None
     def let(s, name, e):
         if e == name: return
         s.lines.append('  let %s := %s in' % (name, e))
@@ -187,6 +233,7 @@ class Fn:
                 if r['kind'] != 'IntegerLiteral' or not (0 <= int(r['value']) < 128): raise Unsupported('u128_rshift amount')
                 s.let(d, '(%s / 2^%s)' % (d, r['value'])); return
             if fn in NOOP_CALLS: return      # production builds: empty bodies ((void)arg)
+            if fn in s.inlines: s.inline_call(fn, args); return
             raise Unsupported('call statement: ' + fn)
         if k == 'BinaryOperator' and n['opcode'] == '=':
             lhs = strip(n['inner'][0]); e = s.ex(n['inner'][1])
@@ -205,6 +252,10 @@ class Fn:
             if cond['kind'] == 'IntegerLiteral' and cond['value'] == '0': s.stmt(body); return      # executes exactly once
             raise Unsupported('loop')
         if k == 'ReturnStmt':
+            if s.inl_ret:
+                if n.get('inner'): s.let(s.inl_ret[-1][0], s.ex(n['inner'][0])); s.inl_ret[-1][1] = True
+                s.returned = True
+                return
             if n.get('inner'): s.let('ret', s.ex(n['inner'][0])); s.has_ret = True
             s.returned = True
             return
@@ -234,10 +285,15 @@ class Fn:
                 s.param_spec.append(None)
             elif '*' in p['type']['qualType']: raise Unsupported('pointer parameter %s neither read at fixed positions nor written' % nm)
             else: ins.append(nm); s.param_spec.append(None)
-        outs = []
-        for a in sorted(s.outs): outs += ['%s%d' % (a, i) for i in sorted(s.outs[a])]
-        for a in sorted(s.mem_out): outs += [mname(a, f, i) for (f, i) in sorted(s.mem_out[a])]
-        for a in sorted(s.ptr_out): outs.append(a + '_v')
+        outs = []; pnames = set(p['name'] for p in params)
+        for a in sorted(s.outs):
+            if a in pnames: outs += ['%s%d' % (a, i) for i in sorted(s.outs[a])]
+        for a in sorted(s.mem_out):
+            if a in pnames: outs += [mname(a, f, i) for (f, i) in sorted(s.mem_out[a])]
+        for a in sorted(s.ptr_out):
+            if a in pnames: outs.append(a + '_v')
+        for a in list(s.arr_in) + list(s.mem_in):
+            if a not in pnames: raise Unsupported('local object %s read before it is written' % a)
         if s.has_ret: outs.append('ret')
         # an array that is both read and written at the same indices (in-place) is not in the subset
         for a in s.outs:
@@ -276,11 +332,12 @@ def ast_of(repo, fn, defines=()):
     finally:
         os.unlink(tu.name)
 
-def translate(repo, fn, defines=(), callees=None, requires=()):
-    """callees: {callee C name: parameter spec list} for value-returning functions already translated"""
+def translate(repo, fn, defines=(), callees=None, requires=(), inlines=()):
+    """callees: {callee C name: parameter spec list} for value-returning functions already translated;
+    inlines: names of functions (same subset) whose calls are translated in place"""
     d = ast_of(repo, fn, defines)
     short = fn.replace('secp256k1_', '')
-    f = Fn(d, short, callees)
+    f = Fn(d, short, callees, {g: ast_of(repo, g, defines) for g in inlines})
     text, ins, outs = f.run()
     if requires:
         text = text.replace('Require Import Kernel.CSem.', 'Require Import Kernel.CSem %s.' % ' '.join('Gen.' + r for r in requires))
@@ -289,5 +346,6 @@ def translate(repo, fn, defines=(), callees=None, requires=()):
 
 if __name__ == '__main__':
     repo = os.environ.get('VERIF_REPO', '/repo')
-    text, ins, outs = translate(repo, sys.argv[1], sys.argv[2:])
+    inl = [a[9:] for a in sys.argv[2:] if a.startswith('--inline=')]
+    text, ins, outs = translate(repo, sys.argv[1], [a for a in sys.argv[2:] if not a.startswith('--inline=')], inlines=inl)
     print(text)
